@@ -6,7 +6,7 @@ import collections, os, random, re, subprocess
 from common import *
 
 WRAPS = ['gettimeofday', 'regexec', 'socket', 'setsockopt', 'connect', 'getsockopt', 'accept', 'getnameinfo', 'fcntl',
-         'close', 'read', 'write', 'poll', 'socketpair', 'fork', 'kill', 'waitpid']
+         'close', 'read', 'write', 'poll', 'socketpair', 'fork', 'kill', 'waitpid', 'xpoll']
 
 
 def build():
@@ -14,7 +14,7 @@ def build():
     srcs = ['udmn.c', 'gen:parse_lex.c', 'gen:parse_tab.c'] + \
         [S('powerman/%s.c' % x) for x in ('arglist', 'pluglist', 'debug', 'device_pipe', 'device_serial')] + \
         [S('liblsd/%s.c' % x) for x in ('hostlist', 'list', 'cbuf', 'hash')] + \
-        [S('libcommon/%s.c' % x) for x in ('error', 'xmalloc', 'hprintf', 'fdutil', 'argv', 'xpoll', 'xread')]
+        [S('libcommon/%s.c' % x) for x in ('error', 'xmalloc', 'hprintf', 'fdutil', 'argv', 'xpoll', 'xread', 'xsignal')]
     return cc('udmn', srcs, wraps=WRAPS)
 
 
@@ -244,7 +244,7 @@ def simulate(seed, N, profile=None, conf='mixp', fixed_ops=None, world=None):
     stats = collections.Counter()
     live = {}; sendq = collections.defaultdict(bytes)
     now = 0; ND = world.nd if world else 2; conn = [0] * ND; dfd = [-1] * ND; dto = [False] * ND; pending = [b""] * ND
-    died = False
+    died = False; qop = "Q"; last_tmo = None
     for it in range(N if fixed_ops is None else len(fixed_ops)):
         if fixed_ops is not None:
             op = fixed_ops[it]
@@ -301,7 +301,19 @@ def simulate(seed, N, profile=None, conf='mixp', fixed_ops=None, world=None):
                     if (rev & 1) and rk == 0 and not data: rev &= ~1
                     if rev: parts.append("%d:%d:%d:%s:%d" % (dfd[di], rev, rk, hx(data), cap))
                     if (rev & 1) and data: dl_d[dfd[di]] = (di, data)
-            op = "P %d %d %d %d" % (now, acc, g.connans(), soe) + "".join(" " + x for x in parts)
+            hup = ""
+            if R.random() < P.get('hup', 0.02):
+                # SIGHUP (caught by a no-op handler) interrupts the sleep in poll d us after it began: xpoll() retries with what is
+                # left of the time-out - also when the signal comes just as (or just after) the time-out runs out
+                d = R.choice([last_tmo // 2, max(0, last_tmo - 300), last_tmo, last_tmo + R.choice([1, 50, 999, 1000, 2500])]) if last_tmo else R.choice([0, 1000, 300000])
+                now += d; hup = " H%d" % d
+                stats['sleeps interrupted by SIGHUP' + (' after the time-out had run out' if last_tmo and d > last_tmo else '')] += 1
+            op = "P %d %d %d %d" % (now, acc, g.connans(), soe) + "".join(" " + x for x in parts) + hup
+            if it == N - 1:
+                # the run ends with a termination signal that arrives while the daemon sleeps in poll, together with everything this
+                # pass would have made ready: the daemon must not look at any of it
+                qop = "Q" + op[1:len(op) - len(hup)].replace(':-2', ':%d' % (1 << 20)); stats['signal passes with descriptors ready' if parts or acc else 'signal passes with nothing else ready'] += 1
+                break
         res = c_op(op)
         if ':-2' in op and fixed_ops is None:
             # "first piece only" capacities: record the op with the byte count the kernel really took (same behaviour on replay
@@ -313,7 +325,7 @@ def simulate(seed, N, profile=None, conf='mixp', fixed_ops=None, world=None):
             t = op.split()
             for i in range(5, len(t)):
                 f = t[i].split(":")
-                if f[4] == '-2':
+                if len(f) > 4 and f[4] == '-2':
                     f[4] = str(wrote.get(int(f[0])) or (1 << 20)); t[i] = ":".join(f); stats['writes limited to the first piece offered'] += 1
             op = " ".join(t)
         ops.append(op)
@@ -339,6 +351,7 @@ def simulate(seed, N, profile=None, conf='mixp', fixed_ops=None, world=None):
                 if n is not None and 0 <= n < len(data): pending[di] = data[n:] + pending[di]; stats['device reads shorter than what was offered'] += 1
                 elif n is None: pending[di] = data + pending[di]
         for l in obs:
+            if l.startswith("O tmo "): last_tmo = None if l.split()[2] == "none" else int(l.split()[2])
             if l.startswith("C "):
                 t = l.split(); fd = int(t[2]); newlive[fd] = dict(id=int(t[1]), quit=t[3] == "1", pending=int(t[6]), to=t[8] != "-")
             if l.startswith("O dev ") and l.split()[3] == "conn":
@@ -364,7 +377,7 @@ def simulate(seed, N, profile=None, conf='mixp', fixed_ops=None, world=None):
         live = newlive
     teardown = None
     if not died:
-        res = c_op("Q")
+        res = c_op(qop)
         teardown = [l for l in res if not l.startswith("X ")]
     try:
         p.stdin.close()
@@ -373,7 +386,7 @@ def simulate(seed, N, profile=None, conf='mixp', fixed_ops=None, world=None):
     p.wait()
     err = open(errpath).read()
     os.unlink(errpath)
-    return dict(seed=seed, conf=conf, dump=dump, ops=ops, couts=couts, xs=xsl, stats=stats, died=died, stderr=err[-6000:], rc=p.returncode, teardown=teardown)
+    return dict(seed=seed, conf=conf, dump=dump, ops=ops, couts=couts, xs=xsl, stats=stats, died=died, stderr=err[-6000:], rc=p.returncode, teardown=teardown, qop=qop)
 
 
 def simulate_steady(seed, cycles=42, nlines=8, world=None, conf='mixp'):
@@ -482,7 +495,7 @@ def lean_side(sim):
     lean_in = list(sim['dump'])
     for op, xs in zip(sim['ops'], sim['xs']):
         lean_in += xs + [op]
-    if sim.get('teardown') is not None: lean_in.append('Q')
+    if sim.get('teardown') is not None: lean_in.append(sim.get('qop', 'Q'))
     r = subprocess.run([os.path.join(LEANBIN, 'dmdriver')], input="\n".join(lean_in) + "\n", capture_output=True, text=True)
     chunks = []; cur = []
     for l in r.stdout.split("\n"):
